@@ -55,7 +55,7 @@ auto potrf(filling uplo, A2D&& A)  // NOLINT(readability-identifier-length) conv
 	auto last = potrf(uplo, begin(A), end(A));
 
 	using std::distance;
-	return std::forward<A2D>(A)({0, distance(begin(A), last)});  // , {0, distance(begin(A), last-1)});
+	return std::forward<A2D>(A)({0, distance(begin(A), last)}, {0, distance(begin(A), last)});
 }
 
 template<class A>
